@@ -564,6 +564,8 @@ public:
         copy_data(mat, uplo, shift);
 
         const RealScalar alpha = (1.0 + std::sqrt(17.0)) / 8.0;
+        // The status is only updated by the elimination steps below, which are skipped for a 1x1 matrix
+        m_info = CompInfo::Successful;
         Index k = 0;
         for (k = 0; k < m_n - 1; k++)
         {
